@@ -183,6 +183,25 @@ def proof_obligations(pid):
                 output=out, theorems=theorems)
 
 
+def coqchk(pid):
+    """Thorough tier: re-check the compiled libraries the property's theorems depend on with the
+    independent checker and report the axioms it finds.  Returns (ok, summary)."""
+    src = open(os.path.join(COQ, "props", pid + ".v"), encoding="utf-8").read()
+    mods = []
+    for m in re.finditer(r"From Moss Require Import ([^.]*)\.", src):
+        for w in m.group(1).split():
+            if w not in mods:
+                mods.append(w)
+    if not mods:
+        return True, "no Moss library imported"
+    rc, out = sh(["coqchk", "-silent", "-o", "-Q", ".", "Moss"] + ["Moss." + m for m in mods], cwd=COQ, timeout=3400)
+    ax = re.search(r"\* Axioms:\s*(.*?)\n\s*\n", out, re.S)
+    axioms = ax.group(1).strip() if ax else "?"
+    ok = rc == 0 and axioms == "<none>" and "type-in-type: <none>" in out and "positivity is assumed: <none>" in out \
+        and "unsafe (co)fixpoints: <none>" in out
+    return ok, "coqchk -silent -o %s: rc=%d axioms=%s" % (" ".join(mods), rc, axioms) + ("" if ok else "\n" + out[-1200:])
+
+
 # ----------------------------------------------------------------------------
 # running the director and a model runner over generated cases
 
